@@ -245,24 +245,7 @@ def sessions(ctx, cfgs, mode, opts_for=lambda k: {}):
             ren = [{}, {"chrA": "chr10", "chrB": "chr1", "chrC": "chr2"}, {"chrA": "chr1", "chrB": "chr10", "chrC": "chr100"}][k % 3]
             nodes = [dict(n, sn=ren.get(n["sn"], n["sn"])) for n in st["nodes"]]
             chroms = [dict(c, name=ren.get(c["name"], c["name"])) for c in st["chroms"]]
-            if k % 4 == 3 and len(chroms) <= 2:
-                # a contig that is one segment without any link (chrM, an unplaced contig): a chain of a single scaffold node
-                nodes = nodes + [{"id": "s900", "sn": "chrM", "so": 0, "ln": 2, "sr": 0}]
-                chroms = chroms + [{"name": "chrM", "bad": False, "elems": [{"k": "s", "ns": ["s900"]}]}]
             links = st["links"]
-            if mode == "C18" and k % 3 == 2 and len(chroms) <= 2:
-                # a circular contig (mitochondrion, plasmid) stored with its closing link: no articulation point at all,
-                # certainly not a chain
-                nodes = nodes + [{"id": f"s95{j}", "sn": "chrR", "so": 2 * j, "ln": 2, "sr": 0} for j in range(3)]
-                links = list(links) + [{"a": "s950", "ao": "+", "b": "s951", "bo": "+"}, {"a": "s951", "ao": "+", "b": "s952", "bo": "+"}, {"a": "s952", "ao": "+", "b": "s950", "bo": "+"}]
-                chroms = chroms + [{"name": "chrR", "bad": True, "elems": [{"k": "s", "ns": ["s950", "s951", "s952"]}]}]
-            if k % 4 == 1 and len(chroms) <= 2:
-                # a chromosome without any bubble: a plain path of reference segments that ends in a segment of another
-                # (rank 1) contig whose offset on ITS contig is smaller than the reference offsets before it
-                nodes = nodes + [{"id": f"s96{j}", "sn": "chrQ", "so": 2 * j, "ln": 2, "sr": 0} for j in range(4)] + [{"id": "s964", "sn": "altQ#1#c.1", "so": 1, "ln": 2, "sr": 1}]
-                links = list(links) + [{"a": f"s96{j}", "ao": "+", "b": f"s96{j + 1}", "bo": "+"} for j in range(4)]
-                chroms = chroms + [{"name": "chrQ", "bad": False, "elems": [{"k": "b", "ns": ["s960"]}, {"k": "s", "ns": ["s961"]}, {"k": "s", "ns": ["s962"]},
-                                                                             {"k": "s", "ns": ["s963"]}, {"k": "b", "ns": ["s964"]}]}]
             jobs.append((f"{cfg[12:-4]}-{k}", {"nodes": nodes, "links": links, "chroms": chroms}, mode, ctx.seed * 1009 + k, opts_for(k)))
     return jobs
 
